@@ -98,6 +98,7 @@ type Sched struct {
 	// MaxPreempt, when > 0, caps the preemptions of this execution below the explorer's bound.
 	MaxPreempt int
 	preempts   int
+	alive      map[uintptr]interface{}
 	sync       map[string]*syncObj
 	SyncOps  int
 	Deadlock string
@@ -129,6 +130,12 @@ func Hook(obj interface{}, loc string, write bool) {
 				field = loc[i+1:]
 			}
 			key = fmt.Sprintf("%x.%s", rv.Pointer(), field)
+			// Objects are identified by address, so every object seen is kept alive until the
+			// execution ends: otherwise the collector may hand the address of one thread's dead
+			// private object to another thread's new one, and their accesses would look like a conflict.
+			if _, seen := s.alive[rv.Pointer()]; !seen {
+				s.alive[rv.Pointer()] = obj
+			}
 		}
 	}
 	if op != "" {
@@ -280,7 +287,7 @@ func Run(c *mc.Ctx, relevant func(string) bool, first int, bodies ...func()) (s 
 
 // RunLimited is Run with at most maxPreempt preemptions (0 = the explorer's bound only).
 func RunLimited(c *mc.Ctx, relevant func(string) bool, first, maxPreempt int, bodies ...func()) (s *Sched, pan interface{}) {
-	s = &Sched{c: c, yield: make(chan int), Relevant: relevant, sync: map[string]*syncObj{}, MaxPreempt: maxPreempt}
+	s = &Sched{c: c, yield: make(chan int), Relevant: relevant, sync: map[string]*syncObj{}, MaxPreempt: maxPreempt, alive: map[uintptr]interface{}{}}
 	for i := range bodies {
 		vc := make([]int, len(bodies))
 		vc[i] = 1
